@@ -122,8 +122,9 @@ def to_field(t, radical_defs=None):
 
 
 def _rad_order(rads):
-    # radicals are named sqrt!k in creation order; a radicand only mentions earlier radicals
-    return sorted(rads, key=lambda n: int(n.split("!")[1]), reverse=True)
+    # algebraic symbols (sqrt!k, sin!k) in reverse creation order: a defining term only mentions earlier symbols.
+    # sin symbols only depend on their cos symbol (a free generator), so any position is fine for them.
+    return sorted(rads, key=lambda n: (0 if n.startswith("sin!") else 1, int(n.split("!")[1])), reverse=True)
 
 
 def _reduce_num(num, F, gens, rads):
